@@ -14,9 +14,9 @@ global size_of usize == 8;
 #[verifier::external_body] pub fn fmt_any() -> (r: String) { String::new() }
 
 // every OS call is a shim that may return Ok or Err, arbitrarily: the obligations quantify over both
-#[verifier::external_body] pub fn os_flush_writer(w: &BufWriterFile) -> (r: Result<(), IoError>) { unimplemented!() }
-#[verifier::external_body] pub fn os_flush_stdout() -> (r: Result<(), IoError>) { unimplemented!() }
-#[verifier::external_body] pub fn os_flush_stderr() -> (r: Result<(), IoError>) { unimplemented!() }
+#[verifier::external_body] pub fn os_flush_writer(w: &BufWriterFile) -> (r: Result<(), IoError>) ensures r is Err <==> os_fails() { unimplemented!() }
+#[verifier::external_body] pub fn os_flush_stdout() -> (r: Result<(), IoError>) ensures r is Err <==> os_fails() { unimplemented!() }
+#[verifier::external_body] pub fn os_flush_stderr() -> (r: Result<(), IoError>) ensures r is Err <==> os_fails() { unimplemented!() }
 #[verifier::external_body] pub fn pcap_from_file(f: Rc<FileHandle>) -> (r: Result<Pcap, IoError>) { unimplemented!() }
 #[verifier::external_body] pub fn pcap_new(f: Rc<FileHandle>) -> (r: Result<Pcap, IoError>) { unimplemented!() }
 #[verifier::external_body] pub fn bufreader_new(f: OsFile) -> (r: BufReaderFile) { unimplemented!() }
@@ -53,3 +53,27 @@ pub fn str_eq(a: &str, b: &str) -> (r: bool) ensures r == (a@ == b@) { a == b }
 // Result::unwrap / expect panic on Err: callable only when the result is known to be Ok
 #[verifier::external_body]
 pub fn os_result_unwrap(r: Result<(), IoError>) requires r is Ok { unimplemented!() }
+
+// ---- round 2: read_line / read_to_string / write. One uninterpreted flag says whether the OS call of this invocation fails;
+// every OS shim fails exactly then, so a postcondition can say "an OS failure yields an error OBJECT".
+pub uninterp spec fn os_fails() -> bool;
+#[verifier::external_body] pub fn os_read_to_end(f: &BufReaderFile, buf: &mut Vec<u8>) -> (r: Result<usize, IoError>) ensures r is Err <==> os_fails() { unimplemented!() }
+#[verifier::external_body] pub fn os_read_line(f: &BufReaderFile, line: &mut String) -> (r: Result<usize, IoError>) ensures r is Err <==> os_fails() { unimplemented!() }
+#[verifier::external_body] pub fn os_read_line_stdin(line: &mut String) -> (r: Result<usize, IoError>) ensures r is Err <==> os_fails() { unimplemented!() }
+#[verifier::external_body] pub fn os_write(f: &BufWriterFile) -> (r: Result<usize, IoError>) ensures r is Err <==> os_fails() { unimplemented!() }
+#[verifier::external_body] pub fn os_write_all_stdout(b: &Vec<u8>) -> (r: Result<(), IoError>) ensures r is Err <==> os_fails() { unimplemented!() }
+#[verifier::external_body] pub fn os_write_all_stderr(b: &Vec<u8>) -> (r: Result<(), IoError>) ensures r is Err <==> os_fails() { unimplemented!() }
+#[verifier::external_body] pub fn os_print() { unimplemented!() }
+#[verifier::external_body] pub fn string_from_utf8(b: Vec<u8>) -> (r: Result<String, Utf8Error>) { unimplemented!() }
+#[verifier::external_body] pub fn string_new() -> (r: String) { String::new() }
+#[verifier::external_body] pub fn string_bytes<'a>(s: &'a String) -> (r: &'a [u8]) { s.as_bytes() }
+#[verifier::external_body] pub fn str_len(s: &String) -> (r: usize) { s.len() }
+#[verifier::external_body] pub fn packet_to_bytes(p: &PcapPacket) -> (r: Vec<u8>) { unimplemented!() }
+impl Array { pub uninterp spec fn elems(&self) -> Seq<Rc<Object>>; }
+#[verifier::external_body] pub fn array_elems(a: &Array) -> (r: Vec<Rc<Object>>) ensures r@ == a.elems() { unimplemented!() }
+#[verifier::external_body] pub fn array_len(a: &Array) -> (r: usize) ensures r == a.elems().len() { unimplemented!() }
+pub open spec fn all_bytes(a: Seq<Rc<Object>>) -> bool { forall|k: int| 0 <= k < a.len() ==> *#[trigger] a[k] is Byte }
+// the documented second argument of write: a byte, an array of bytes, a string or a packet
+pub open spec fn writable(o: Object) -> bool {
+    o is Byte || o is Str || o is Packet || (o matches Object::Arr(a) && all_bytes(a.elems()))
+}
